@@ -142,7 +142,7 @@ func gVote(c *Check) {
 			bfCmp(FieldOf(their, eidT), ">", FieldOf(our, eidT)),
 			bfAnd(bfCmp(FieldOf(their, eidT), "==", FieldOf(our, eidT)), bfCmp(FieldOf(their, eidI), ">=", FieldOf(our, eidI))),
 		)
-		code := ifi.valueBF(ret.Results[0], 0)
+		code := ifi.valueBF(ifi.RetVal(ret, 0), 0)
 		ok, why := bfEquiv(code, spec)
 		c.Result(ok, rule+".uptodate", "return of raftLog.isUpToDate", fnName(isUpToDate), p.site(ret), "their.term > our.term || (their.term == our.term && their.index >= our.index), our <- lastEntryID()", fmt.Sprintf("code: %s %s", code, why))
 	}
@@ -340,7 +340,7 @@ func gElect(c *Check) {
 	// poll -> RecordVote + TallyVotes
 	pfi := p.Info(poll)
 	for _, ret := range returnsOf(pfi) {
-		v := pfi.Sym(ret.Results[2])
+		v := pfi.RetSym(ret, 2)
 		ok := v.K == KExtract && v.Idx == 2 && v.Args[0].K == KCall && v.Args[0].Fn == tally
 		c.Result(ok, rule+".tally", "poll result", fnName(poll), p.site(ret), "result <- r.trk.TallyVotes()", "result <- "+v.Key())
 	}
@@ -348,7 +348,7 @@ func gElect(c *Check) {
 	// TallyVotes result <- Voters.VoteResult(Votes) over the joint config
 	tfi := p.Info(tally)
 	for _, ret := range returnsOf(tfi) {
-		v := tfi.Sym(ret.Results[2])
+		v := tfi.RetSym(ret, 2)
 		ok := v.K == KCall && v.Fn == jvr && v.Args[0].K == KField && v.Args[0].Fld == votersF && v.Args[1].K == KField && v.Args[1].Fld == votesF
 		c.Result(ok, rule+".tally", "TallyVotes result", fnName(tally), p.site(ret), "result <- p.Voters.VoteResult(p.Votes) (joint)", "result <- "+v.Key())
 	}
